@@ -25,7 +25,7 @@ import traceback
 
 from hypothesis import strategies as st
 
-from .. import gencdecl, genc3mini, genir
+from .. import cfeat, fuzz, gencdecl, genc3mini, genir
 from ..core import Discard, HarnessError, Stats, hyp_search, jhash, open_finding_ids, subseed
 from . import c27
 
@@ -96,6 +96,7 @@ SUPPORTED = {
     "init:union": TC + ":359",
     "init:union-designated": None,
     "init:address-of-global": TC + ":835",
+    "init:int-to-pointer-cast": TC + ":833 (int* ptr = (int*)0x1000;), test/samples/simple/arithmatic.c:4, examples/riscvpicorv32/csrc/bsp.c:8",
     "init:array-decay": None,
     "init:address-of-element": None,
     "init:array-plus-offset": None,
@@ -306,6 +307,8 @@ def message(case, r):
 
 
 def replay(case):
+    if fuzz.is_case(case):
+        return fuzz.replay_case(case, fuzz_cfront)
     if case["lang"] == "c":
         if not GCC:
             raise HarnessError("gcc not found")
@@ -322,6 +325,8 @@ def classify(case, msg):
     if not mo:
         return None
     etype, frame = mo.group(1), mo.group(2)
+    if fuzz.is_case(case):
+        case = {"lang": "c", "src": fuzz.case_bytes(case).decode("utf-8", "ignore")}
     assumed_fixed = {x.strip() for x in os.environ.get("VERIF_C28_FIXED", "").split(",") if x.strip()}
     for kid, (lang, t, fr, rx) in FINDINGS.items():
         if kid in assumed_fixed:
@@ -459,3 +464,97 @@ def run(ctx):
     for w in range(4):
         args.append((subseed(ctx.seed, PID, "ir", w), ni // 4, "ir"))
     ctx.pmap(_worker, args)
+    if not ctx.quick:
+        fuzz_layer(ctx)
+
+
+# ---------------------------------------------------------------------------
+# coverage-guided fuzzing of the C front end (thorough tier only; driver: vf/fuzz.py)
+
+FUZZ_TARGET = "C28.cfront"
+FUZZ_RUNS = 30000  # (one c_to_ir call under coverage instrumentation costs 10-100 ms)
+FUZZ_DICT = [w.encode() for w in sorted(cfeat.KEYWORDS_OK)] + [b"<<=", b">>=", b"++", b"--", b"<<", b">>", b"<=", b">=", b"==", b"!=", b"&&", b"||",
+             b"+=", b"-=", b"*=", b"/=", b"%=", b"&=", b"|=", b"^=", b" = { ", b" };\n", b"0x", b"ull", b"UL", b"'a'", b"\"ab\"", b"1.5", b"1e3",
+             b"[2]", b"[0] = ", b".m1 = ", b": 3;", b"case 1: ;", b"default: ;", b"int g1", b"int f1(void) {", b"return 0;"]  # fmt: skip
+
+
+def _gcc_valid_bounded(src):
+    try:
+        p = subprocess.run([GCC, "-std=c99", "-fsyntax-only", "-pedantic-errors", "-x", "c", "-"], input=src.encode("utf-8", "ignore"),
+                           capture_output=True, env=dict(os.environ, LC_ALL="C"), timeout=120)  # fmt: skip
+    except (OSError, subprocess.TimeoutExpired):
+        return False
+    return p.returncode == 0
+
+
+def fuzz_features(src):
+    """Construct tags of a mutated unit (vf/cfeat.py: clang's AST + lexical rules); None = undecided."""
+    return cfeat.tags(src)
+
+
+def fuzz_cfront(data):
+    """One fuzz input = bytes of a would-be C translation unit.  Returns an outcome label; raises fuzz.Failure on a C28
+    violation.  Cheap path first: c_to_ir alone; success and diagnostics are fine.  Only on an internal exception gcc
+    decides whether the input is valid C99; for a valid one the known findings (classify) and the supported subset
+    (stream_of over the construct tags recovered by vf/cfeat.py) are applied exactly as for generated inputs."""
+    import ppci.api as api
+
+    text = data.decode("utf-8", "ignore")
+    r = _guard(lambda: api.c_to_ir(io.StringIO(text), "x86_64"), "c_to_ir")
+    if r is None:
+        return "ok"
+    if r[0] == "diag":
+        return "diagnostic:" + r[1]
+    bucket = "%s@%s" % (r[1], r[2])
+    if r[1] in ("RecursionError", "MemoryError"):
+        return "resource:" + r[1]
+    if r[0] == "backend":
+        return "backend(C29):" + bucket
+    lex = cfeat.lexical_tags(text)  # cheap: no subprocess
+    if any(t.startswith("invalid:") for t in lex):
+        return "invalid C (lexical), internal error:" + bucket
+    if any(not SUPPORTED.get(t) for t in lex):
+        return "outside the supported subset (lexical; validity not asked), internal error:" + bucket
+    if not GCC or not _gcc_valid_bounded(text):
+        return "invalid C, internal error:" + bucket
+    case = {"lang": "c", "src": text, "features": []}
+    kid = classify(case, message(case, r))
+    if kid and kid in open_finding_ids(PID):
+        return "known:" + kid
+    tags = fuzz_features(text)
+    if tags is None:
+        return "valid C, stream undecided (clang), internal error:" + bucket
+    case["features"] = sorted(tags)
+    if stream_of(case) != "supported":
+        return "unsupported-stream internal error:%s [%s]" % (bucket, ",".join(sorted(tags))[:80])
+    raise fuzz.Failure("fuzzed " + message(case, r), bucket)
+
+
+def fuzz_seeds(seed):
+    """~30 small units of the supported profile (gcc-valid)"""
+    open_ids = set(open_finding_ids(PID))
+    avoid = set()
+    for kid in open_ids:
+        avoid |= set(AVOID.get(kid, ()))
+    cfg = gencdecl.Cfg(avoid=avoid | {k for k, v in SUPPORTED.items() if not v}, const_expr="supported", max_funcs=2, max_globals=5, max_depth=2)
+    seeds = []
+    for c in fuzz.collect(gencdecl.programs(cfg), 120, subseed(seed, PID, "fuzz-seeds")):
+        b = c["src"].encode()
+        if 40 <= len(b) <= 1500 and b not in seeds and gcc_valid(c["src"]):
+            seeds.append(b)
+        if len(seeds) >= 30:
+            break
+    return seeds
+
+
+def fuzz_layer(ctx):
+    try:
+        info = {}
+        fails = fuzz.campaign(FUZZ_TARGET, fuzz_cfront, fuzz_seeds(ctx.seed), fuzz.runs(FUZZ_RUNS), subseed(ctx.seed, PID, "fuzz"),
+                              ctx.tmpdir(), dictionary=FUZZ_DICT, info=info)  # fmt: skip
+    except ImportError:
+        ctx.stats.notes.append("atheris unavailable")
+        return
+    ctx.extra["fuzz"] = info
+    for data, msg in fails:
+        ctx.fail(fuzz.case(FUZZ_TARGET, data), msg)
